@@ -137,3 +137,15 @@ def judge(ctx, items, label="judge", module="ExprJudge", timeout=3000, chunk=400
         for i, v in got.items():
             verdicts[start + i - 1] = v
     return verdicts
+
+
+def bv_selftest(ctx, maxw=4):
+    """BV.tla against integer arithmetic, exhaustively for widths 1..maxw (a failure is a machinery error)."""
+    text = "---- MODULE BVT ----\nEXTENDS BVTest\n====\n"
+    for w in range(1, maxw + 1):
+        cfg = "INIT Init\nNEXT Next\nINVARIANT OK\nCHECK_DEADLOCK FALSE\nCONSTANT W = %d\n" % w
+        res = core.run_tlc(ctx, "BVT", text, cfg, workers=core.NCPU, timeout=900)
+        ctx.add_tlc(res)
+        if not res.ok:
+            raise core.MachineryError("BV.tla self-test failed at width %d: %s" % (w, res.errtext[:1500]))
+    ctx.notes["bv_selftest_widths"] = "1..%d" % maxw
